@@ -340,6 +340,11 @@ func isMapKeyOf(st *pstate, key, rv *Sym, n int64) bool {
 	if key.K != sLoad || key.A.K != sIndexAddr {
 		return false
 	}
+	// element n of a slice that collects every key of rv (keycoll.go)
+	if kc, m := collectedKeys(st, key.A.A); kc != nil && !kc.strings && m.Key() == rv.Key() {
+		b, o := linear(key.A.B)
+		return b == "" && o == n
+	}
 	mc, ok := reflCall(key.A.A, "MapKeys")
 	if !ok || symArgs(st, mc)[0].Key() != rv.Key() {
 		return false
@@ -367,4 +372,17 @@ func init() {
 		r.Explain = "Decides: the nil-filter shortcut comes first and returns the input itself; for lists the elements are visited by Index(0), Index(1), … and the loop ends only when i < Len() is false; for maps entry n is MapIndex(MapKeys()[n]); the value handed to the filter's own evaluator is Interface() of exactly the item that is appended / stored (under its own key) and only when the evaluation was (true, nil); the result is Interface() of a container rooted at MakeSlice(type, 0, …) with the input's own type for slices and SliceOf(Elem) for arrays, or MakeMap(input type); the first element error ends the call with (nil, err); every other kind of input, nil included, reaches an error return without a panicking reflect call. NOT decided: that Evaluate is right (C01…), reflect.Append/SetMapIndex semantics."
 		r.Assume = append(r.Assume, "reflect.Append / SetMapIndex / MakeSlice / MakeMap behave as documented")
 	})
+}
+
+// isCollectedKeyString: s is element n of a slice that collects the string every key of rv spells.
+func isCollectedKeyString(st *pstate, s, rv *Sym, n int64) bool {
+	if s == nil || s.K != sLoad || s.A.K != sIndexAddr {
+		return false
+	}
+	kc, m := collectedKeys(st, s.A.A)
+	if kc == nil || !kc.strings || m.Key() != rv.Key() {
+		return false
+	}
+	b, o := linear(s.A.B)
+	return b == "" && o == n
 }
